@@ -84,12 +84,19 @@ def expectation(b, p, tmark, req, corrupt=None, fill=0xAA):
     xf = bytearray(t0)
     mask = []
     bad_file_off = None
+    repl = None
+    if isinstance(corrupt, (list, tuple)):       # [chunk, hex of the bytes delivered instead of the chunk's stored bytes]
+        corrupt, repl = corrupt[0], bytes.fromhex(corrupt[1])
     if corrupt is not None:
         off, ln = ext[corrupt]
         bad_file_off = off + ln // 2
         for (a, z), pay in zip(rs, payloads):
             if a <= bad_file_off <= z:
-                pay[bad_file_off - a] ^= 0x04
+                if repl is not None:
+                    assert len(repl) == ln
+                    pay[off - a:off - a + ln] = repl
+                else:
+                    pay[bad_file_off - a] ^= 0x04
     for i in covered:
         off, ln = ext[i]
         if corrupt is None or i < corrupt:
@@ -107,6 +114,8 @@ def expectation(b, p, tmark, req, corrupt=None, fill=0xAA):
 
 def make_case(b, p, tmark, req, st, corrupt, cuts, limit):
     e = expectation(b, p, tmark, req, corrupt)
+    if isinstance(corrupt, (list, tuple)):
+        corrupt = corrupt[0]
     hdr, body, layout = httpsim.respond(b, req, st, e["payloads"])
     xerrby = -1
     if corrupt is not None:
@@ -143,7 +152,7 @@ def work(arg):
         klass = {"check": "C05", "format": "multipart" if multi else "plain", "boundary": bclass, "corrupted": corrupt is not None,
                  "quoted": bool(st and st.quoted), "spelling": None if not multi else [st.cr_case, st.extra, st.lead_crlf, st.ctype_first]}
         what0 = "%s missing=%s limit=%d request=%s %s%s cuts=%s" % (name, tmark, limit, req, st.name() if multi else "plain",
-                                                                 " corrupt-chunk-%d" % corrupt if corrupt is not None else "", cuts)
+                                                                 " corrupt-chunk-%s" % (corrupt if not isinstance(corrupt, (list, tuple)) else "%d-twin" % corrupt[0]) if corrupt is not None else "", cuts)
         if not c.done or f is None:
             res["viol"].append((dict(klass, predicate="crash-or-hang"), "%s: %s" % (what0, c.status()), case))
             continue
@@ -221,9 +230,46 @@ def run(ctx):
                 step = max(8, blen // 24)
                 for lo in range(1, blen, step):
                     jobs.append((name, b, [(it[0], it[1], it[2], it[3], it[4], "sweep2:%d:%d" % (lo, min(blen, lo + step)))], 1200000))
-    ctx.bounds = {"targets": [t[0] for t in tg], "missing_sets": "all non-empty subsets of chunks", "requests": nreq,
+    # every character RFC 2046 allows in a boundary, at the start, in the middle and at the end of a short boundary (blank not
+    # at the end), quoted; unquoted as well for the characters that may appear in an unquoted parameter value
+    name, b = tg[0]
+    multis0 = sorted(m for (n_, m, l) in reqs if n_ == name and reqs[(n_, m, -1)].count(",") >= 1)
+    m0 = multis0[-1]
+    bitems = []
+    bchars = "'()+_,-./:=? "
+    token_ok = "'+_-."
+    seen_b = set()
+    for ch in bchars + "0aZ":
+        for bd in ("x" + ch + "y", ch + "xy", "xy" + ch, ch):
+            if bd.endswith(" ") or bd in seen_b:
+                continue
+            seen_b.add(bd)
+            for quoted in ((True, False) if (ch in token_ok or ch.isalnum()) else (True,)):
+                for cuts in ("-", "all1", "k5"):
+                    bitems.append((m0, -1, reqs[(name, m0, -1)], Style(bd, quoted, 0, 0, True), None, cuts))
+    for ch in core.chunks(bitems, 24):
+        jobs.append((name, b, ch, 60000))
+    # digest twins (value-dependent shape): the payload delivered for a chunk is other bytes of the same length whose digest
+    # shares its leading 0x00 byte with the chunk's digest; chunk must end failed and zero-filled like any other mismatch
+    for cfg in (Cfg(0, b"", 0, 3, 1), Cfg(2, b"", 0, 1, 1)):
+        good, mut, content, ci, limit, Q = universe.twin_file(cfg, ctx.seed, at=1)
+        pg = zckref.parse(good)
+        off, ln = zckref.extents(pg)[ci]
+        tname = "ref:twin:%s" % cfg.name()
+        treqs = requests([(tname, good)], [-1])
+        titems = []
+        for (n_, m, l), req in sorted(treqs.items()):
+            if m[ci] != "0":
+                continue
+            for cuts in ("-", "all1", "sweep1"):
+                titems.append((m, -1, req, default, [ci, mut[off:off + ln].hex()], cuts))
+        for ch in core.chunks(titems, 24):
+            jobs.append((tname, good, ch, 60000))
+    ctx.bounds = {}
+    ctx.bounds["boundary_alphabet"] = "%d boundaries: each RFC 2046 boundary character at start / middle / end / alone" % len(seen_b)
+    ctx.bounds = dict(ctx.bounds or {}, **{"targets": [t[0] for t in tg], "missing_sets": "all non-empty subsets of chunks", "requests": nreq,
                   "spellings": len(sts), "cuts": "whole, 1-byte, k=2..17, every single cut" + (", every pair of cuts (selected responses)" if thorough else ""),
-                  "corruption": "one flipped payload byte in every requested chunk"}
+                  "corruption": "one flipped payload byte in every requested chunk; a digest twin of the chunk"})
     ctx.rule = ("case = (marking, response spelling, partition of the body into callback invocations); state count = partitions executed; "
                 "non-trivial = single-cut partitions whose cut is not at a payload edge")
     for r in core.pmap(work, jobs):
